@@ -68,7 +68,7 @@ SPEC = dict(
          "LEVEL 2 (-e2e N, one stack with a loopback NIC, stack.Pstack set by the driver, bundled http.Server + http.Client + websocket.Client/Upgrade over the stack's "
          "own TCP): 2N/3 HTTP exchanges with requests of G and random route tables; N/3 WebSocket sessions (1-4 messages each way of lengths {0,1,125,126,127,200,1000}, "
          "client frames sent with the bundled Push (unmasked) or as raw masked frames on the same connection, lock-step and burst); thorough adds sessions with 65535/65536/"
-         "65537-byte and 200 KiB messages both ways (spread over the output). Payloads CHOSEN by the driver above 256 bytes are pattern bytes regenerated inside Coq from (n, seed); everything the "
+         "65537-byte and 200 KiB messages both ways (spread over the output). BURSTS (with -e2e): 3-6 messages written back to back in ONE direction on one upgraded connection (client->server with the bundled Push, server->client with Conn.SendData), no waiting in between, later messages fitting the capacity of earlier ones (300,300,125,0,126,200 / 1000,1000,70,1000,1 / 126,125,124 / 20000,20000,300,16000,125,0; thorough also 70000,70000,300,65536,125,0 / 65536,65535,65536 / 200 KiB,200 KiB / 128 KiB,100,128 KiB,100 ...), every message filled with bytes that identify message index and offset, the receiver issuing its first read only after the whole burst was written (slow reader); observable = the list of messages received, compared byte for byte by spec and by the model; an attempt that does not return is retried on a fresh connection and, if none returns, reported as received-so-far + 'did not return'. Payloads CHOSEN by the driver above 256 bytes are pattern bytes regenerated inside Coq from (n, seed); everything the "
          "implementation RETURNS is written out in full. A case is non-trivial unless its input is empty (tag = case kind / branch class); distinct = distinct case lines",
     trusted_base=[KERNEL, CORR_TB, "Print Assumptions: every C20 theorem is closed under the global context (no axioms)",
                   "modelled, not verified: protocol/application/http/{pkg,request,request_client,response,server_patttern,connection}.go and "
